@@ -16,6 +16,15 @@ one is reported as `hang` (for the deterministic pivots that is exactly: the con
 
 Queries are compared with a brute-force oracle on exact integer arithmetic (coordinates doubled, so
 4*squared distances are integers).
+
+Argument forms and ownership (subchecks C11.forms.* and C11.build.owns_points): the answers are a function of
+the point VALUES given at build time and of the VALUE of the query position.  The forms families hand every
+point set to the real constructor as float64 / float32 / int64 array (C, Fortran, strided view, read-only view)
+and as list of tuples / lists / Vec (int or float elements), ask every query also as Vec / ndarray / list /
+tuple with float or int elements (fractional positions on integer-typed points included), compare the
+caller's containers with their snapshots, then let the caller edit his container in place (re-centre,
+overwrite rows, sort columns) and ask all trees again: same brute-force table.  A wrong behaviour is classified
+by the set of forms it shows on relative to the forms tried (all / one attribute value / container kinds).
 """
 from __future__ import annotations
 import itertools, math, random as _pyrandom
